@@ -474,6 +474,8 @@ def default_profile():
         p_devnull=0.0,
         p_case_name=0.0,
         same_name_without_demux=False,  # (C20) same-named adapters also without {name} in the output
+        p_empty_adapter_file=0.0,  # (C05) an adapter file without records for the read that has no adapters
+        p_same_r2=0.0,  # (C06, C20) R2 gets exactly the adapters of R1, names included
         p_bam=0.0,  # (C04, C06, C12) single-end input as unaligned BAM
         p_nonascii_name=0.0,  # (C06) an adapter name with a non-ASCII letter (it reaches the info file and the reports)
         p_giant=0.0,  # more than 65536 short reads
@@ -537,6 +539,9 @@ def gen_case(rng, profile=None):
                     ad2.append(gen_adapter(rng, end, nm, allow_linked=not pair_adapters, simple=P["simple_adapters"] or pair_adapters))
             if want2 and not demux and not pair_adapters and rng.random() < 0.25:
                 ad1 = []  # adapters on R2 only
+            if ad1 and not pair_adapters and demux != "combinatorial" and rng.random() < P["p_same_r2"]:
+                # the same (named) adapters for both reads, as with one adapter file given to -a and -A
+                ad2 = [dict(a) for a in ad1]
             if pair_adapters and len(ad1) >= 2 and len(ad2) == len(ad1) and rng.random() < 0.35:
                 # dual-index layout: the same index sequence on one side is combined with different
                 # ones on the other side (two ranks share an R1 or an R2 adapter sequence)
@@ -582,6 +587,10 @@ def gen_case(rng, profile=None):
             opts.append(["-" + a["end"], a["spec"]])
     for a in ad2:
         opts.append(["-" + a["end"].upper(), a["spec"]])
+    if paired and not demux and not pair_adapters and bool(ad1) != bool(ad2) and rng.random() < P["p_empty_adapter_file"]:
+        # a per-library adapter file that happens to hold no adapter: that read has no adapters
+        aux_files[f"{SIMFS}no_adapters.fasta"] = ""
+        opts.append(["-A" if ad1 else "-a", f"file:{SIMFS}no_adapters.fasta"])
     has_adapters = bool(ad1 or ad2)
     has_linked = any(a["kind"] == "linked" for a in ad1 + ad2)
     times = 1
@@ -711,22 +720,23 @@ def gen_case(rng, profile=None):
         untrimmed_mode = rng.choice(choices)
     # where the placeholder stands in the file name: after a literal prefix, or first (with relative
     # paths, see the 'relpaths' knob, it is then the first character of the whole template)
-    tpre = rng.choice(["dm_", "dm_", "dm_", "", "", "s.1-"])
+    tpre, tpost = rng.choice([("dm_", ""), ("dm_", ""), ("dm_", ""), ("", ""), ("", ""), ("s.1-", ""),
+                              ("{", "}"), ("x{1}_", ""), ("a}b_", "")])  # (braces that are not placeholders stay as they are)
     if demux == "normal":
         ext = rng.choice(OUT_EXT_FASTQ if fastq else OUT_EXT_FASTA) + rng.choice(OC)
         if paired:
             twice = "_{name}" if rng.random() < 0.12 else ""
-            outs.append(["-o", f"{SIMFS}{tpre}{{name}}{twice}_1{ext}"])
-            outs.append(["-p", f"{SIMFS}{tpre}{{name}}{twice}_2{ext}"])
+            outs.append(["-o", f"{SIMFS}{tpre}{{name}}{tpost}{twice}_1{ext}"])
+            outs.append(["-p", f"{SIMFS}{tpre}{{name}}{tpost}{twice}_2{ext}"])
         else:
             twice = "_{name}" if rng.random() < 0.12 else ""
-            outs.append(["-o", f"{SIMFS}{tpre}{{name}}{twice}{ext}"])
+            outs.append(["-o", f"{SIMFS}{tpre}{{name}}{tpost}{twice}{ext}"])
     elif demux == "combinatorial":
         ext = rng.choice(OUT_EXT_FASTQ if fastq else OUT_EXT_FASTA) + rng.choice(OC)
         twice = "_{name2}{name1}" if rng.random() < 0.12 else ""
         tpre = tpre.replace("dm_", "cd_")
-        outs.append(["-o", f"{SIMFS}{tpre}{{name1}}-{{name2}}{twice}_1{ext}"])
-        outs.append(["-p", f"{SIMFS}{tpre}{{name1}}-{{name2}}{twice}_2{ext}"])
+        outs.append(["-o", f"{SIMFS}{tpre}{{name1}}-{{name2}}{tpost}{twice}_1{ext}"])
+        outs.append(["-p", f"{SIMFS}{tpre}{{name1}}-{{name2}}{tpost}{twice}_2{ext}"])
     else:
         if paired:
             if rng.random() < P["p_interleaved_out"]:
@@ -1015,6 +1025,7 @@ def gen_knobs(rng, case, P=None):
     knobs["piped_exts"] = e.choice([[], [".xz", ".zst"], [".xz", ".zst"], [".gz", ".bz2", ".xz", ".zst"]])
     knobs["emfile_at"] = e.randint(1, 12) if e.random() < P["p_emfile"] else None
     knobs["relpaths"] = e.random() < 0.3  # run in the data directory and name all files relative to it
+    knobs["preexist"] = e.random() < 0.15  # the named output files exist already (a re-run)
     if case["input"].get("stdin"):
         knobs["stdin_kind"] = case["input"]["stdin"]
     return knobs
